@@ -19,13 +19,14 @@ type State struct {
 	heap   map[string]Term
 	pc     Term
 	dead   bool
+	cut    int            // index into the premise list at the innermost loop head this state is inside of (0: none)
 	kinds  map[string]int // interface value term -> dynamic kind known on this path (type switch / assertion)
 	probe  *[]string // non-nil: heap reads resolve to formal parameters hp!<key> (recursive spec function bodies)
 	leaves [][]Term // conjunctions; pc implies their disjunction (joined paths, used to case-split hard obligations)
 }
 
 func (s *State) clone() *State {
-	n := &State{vars: make(map[types.Object]Term, len(s.vars)), heap: make(map[string]Term, len(s.heap)), pc: s.pc, dead: s.dead}
+	n := &State{vars: make(map[types.Object]Term, len(s.vars)), heap: make(map[string]Term, len(s.heap)), pc: s.pc, dead: s.dead, cut: s.cut}
 	n.leaves = append([][]Term(nil), s.leaves...)
 	if len(s.kinds) > 0 {
 		n.kinds = make(map[string]int, len(s.kinds))
@@ -57,6 +58,7 @@ type Obligation struct {
 	Smoke   bool
 	Splits  [][]Term
 	NSplit  int
+	Cut      int    // premises before this index (other than the preconditions, global axioms and the definitions the query refers to) belong to code before the enclosing loop head
 	ViewGoal string // goal body with placeholder @V@ when the goal is forall v in 0..65536 :: body
 	// filled by the discharger
 	Res     SolverResult
@@ -137,6 +139,7 @@ type Exec struct {
 	usedLemmas     []string
 	revealOpaque   bool
 	calledContracts map[string]bool
+	bodyStart       int // premises before this index are preconditions / entry facts
 	viewFacts       []viewFact
 	pendingView     string // body (with placeholder) of the view-quantified goal being obliged
 }
@@ -360,7 +363,7 @@ func (e *Exec) obligeNamed(st *State, name, kind, tag string, goal Term, desc st
 	}
 	e.syncCtx(st.pc.S)
 	e.obls = append(e.obls, &Obligation{Name: name, Func: e.fn.Key, Kind: kind, Tag: tag, NAssump: len(e.assumps), NDecl: len(e.decls),
-		PC: st.pc, Goal: goal, Desc: desc, Pos: e.pos(p), Bounded: e.boundedK, Splits: append([][]Term(nil), st.leaves...), ViewGoal: e.pendingView})
+		PC: st.pc, Goal: goal, Desc: desc, Pos: e.pos(p), Bounded: e.boundedK, Splits: append([][]Term(nil), st.leaves...), ViewGoal: e.pendingView, Cut: st.cut})
 	e.pendingView = ""
 }
 
